@@ -191,3 +191,125 @@ Section Merge.
     apply dedupe_sub in Hx. apply ssort_In in Hx. apply (merged_mentions_exact aas Ea p). apply in_flat_map. eauto.
   Qed.
 End Merge.
+
+(* ================= completeness through the duplicate removal ================= *)
+Definition wf_tr (x : variant * list nat) : Prop :=
+  match v_kind (fst x) with KNuc => snd x = [vp (fst x)] | KAA => True | _ => snd x = [] end.
+Fixpoint aa_uniq (l : list (variant * list nat)) : Prop :=
+  match l with
+  | [] => True
+  | x :: t => (v_kind (fst x) = KAA -> Forall (fun y => variant_eqb (fst y) (fst x) = false) t) /\ aa_uniq t
+  end.
+
+Lemma kind_rank_inj a b : kind_rank a = kind_rank b -> a = b.
+Proof. destruct a, b; cbn; intros H; try reflexivity; discriminate. Qed.
+Lemma variant_eqb_kind a b : variant_eqb a b = true -> v_kind a = v_kind b /\ v_pos a = v_pos b.
+Proof.
+  unfold variant_eqb. rewrite !andb_true_iff. intros [[[[[[[H1 H2] _] _] _] _] _] _].
+  apply Z.eqb_eq in H1, H2. split; [apply kind_rank_inj; exact H1|exact H2].
+Qed.
+
+Lemma dedupe_complete l : forall prev, Forall wf_tr l -> aa_uniq l ->
+  (forall pv, prev = Some pv -> v_kind pv = KAA -> Forall (fun y => variant_eqb (fst y) pv = false) l) ->
+  forall v m p, In (v, m) l -> In p m ->
+  In p (flat_map snd (dedupe prev l)) \/ (exists pv, prev = Some pv /\ variant_eqb v pv = true /\ v_kind v = KNuc).
+Proof.
+  induction l as [|x t IH]; intros prev Hwf Hu Hfresh v m p Hin Hp; [contradiction|].
+  inversion Hwf as [|? ? Hx Hwt]; subst. destruct Hu as [Hux Hut]. cbn [dedupe].
+  assert (Hfresh_t : forall pv, prev = Some pv -> v_kind pv = KAA -> Forall (fun y => variant_eqb (fst y) pv = false) t).
+  { intros pv E K. specialize (Hfresh pv E K). inversion Hfresh; assumption. }
+  destruct ((match v_kind (fst x) with KDel => true | _ => false end) && (v_pos (fst x) =? 0)%Z) eqn:Edel.
+  - (* a start-abutting deletion: mentions nothing *)
+    destruct Hin as [Hin|Hin]; [|apply (IH prev Hwt Hut Hfresh_t v m p Hin Hp)].
+    subst x. cbn [fst snd] in *. unfold wf_tr in Hx. cbn [fst snd] in Hx. destruct (v_kind v); try discriminate. subst m. contradiction.
+  - destruct (match prev with Some pv => variant_eqb (fst x) pv | None => false end) eqn:Edup.
+    + (* dropped as a duplicate of the last kept record *)
+      destruct Hin as [Hin|Hin]; [|apply (IH prev Hwt Hut Hfresh_t v m p Hin Hp)].
+      subst x. cbn [fst snd] in *. destruct prev as [pv|]; [|discriminate].
+      destruct (variant_eqb_kind _ _ Edup) as [Hk _]. unfold wf_tr in Hx. cbn [fst snd] in Hx.
+      destruct (v_kind v) eqn:Kv.
+      * exfalso. specialize (Hfresh pv eq_refl (eq_sym Hk)). inversion Hfresh as [|? ? Hf _]; subst. cbn [fst] in Hf. congruence.
+      * subst m. contradiction.
+      * subst m. contradiction.
+      * right. exists pv. auto.
+    + (* kept *)
+      cbn [flat_map]. destruct Hin as [Hin|Hin].
+      * subst x. left. apply in_or_app. left. exact Hp.
+      * assert (Hf' : forall pv, Some (fst x) = Some pv -> v_kind pv = KAA -> Forall (fun y => variant_eqb (fst y) pv = false) t).
+        { intros pv [= <-] K. apply Hux. exact K. }
+        destruct (IH (Some (fst x)) Hwt Hut Hf' v m p Hin Hp) as [H|(pv & [= <-] & He & Kv)].
+        -- left. apply in_or_app. right. exact H.
+        -- left. apply in_or_app. left. destruct (variant_eqb_kind _ _ He) as [Hk Hpos].
+           assert (Hwv : wf_tr (v, m)) by (rewrite Forall_forall in Hwt; apply Hwt; exact Hin).
+           unfold wf_tr in Hwv, Hx. cbn [fst snd] in Hwv. rewrite Kv in Hwv. rewrite <- Hk, Kv in Hx.
+           rewrite Hx. rewrite Hwv in Hp. destruct Hp as [<-|[]]. left. unfold vp. rewrite Hpos. reflexivity.
+Qed.
+
+(* what the codon loop emits is well-formed: nuc: records mention their own position *)
+Lemma aa_out_wf ref que r2m g : forall l s,
+  Forall wf_tr (a_out s) -> Forall (fun v => v_kind v = KNuc) (a_snps s) ->
+  Forall wf_tr (a_out (fold_left (aa_step ref que r2m g) l s)).
+Proof.
+  induction l as [|p t IH]; intros s Ho Hs; cbn [fold_left]; [exact Ho|].
+  assert (K : Forall wf_tr (a_out (aa_step ref que r2m g s p)) /\ Forall (fun v => v_kind v = KNuc) (a_snps (aa_step ref que r2m g s p))).
+  { unfold aa_step. destruct (a_panic s); [split; assumption|]. destruct (_ =? 244); [split; assumption|].
+    set (snps' := if _ <? 16 then a_snps s ++ [_] else a_snps s).
+    assert (Hs' : Forall (fun v => v_kind v = KNuc) snps').
+    { unfold snps'. destruct (_ <? 16); [apply Forall_app; split; [exact Hs|repeat constructor]|exact Hs]. }
+    destruct (Nat.eqb (S (a_cc s)) 3).
+    - destruct (nth_error (g_trans g) (a_aa s)); cbn [a_out a_snps]; [|split; assumption]. split; [|constructor].
+      destruct (negb _ && negb _); apply Forall_app; split; try exact Ho.
+      + repeat constructor.
+      + apply Forall_forall. intros x Hx. apply in_map_iff in Hx as (v & <- & Hv). rewrite Forall_forall in Hs'. unfold wf_tr, trace_nuc. cbn [fst snd].
+        rewrite (Hs' v Hv). reflexivity.
+    - cbn [a_out a_snps]. split; assumption. }
+  destruct K as [K1 K2]. apply IH; assumption.
+Qed.
+
+Section Complete.
+  Variables (ref que : list N) (gs : list region).
+  Let r2m := ref_to_msa ref.
+  Let reflen := length (filter nongap ref).
+  Let inter := inter_of gs reflen.
+  Hypothesis regions_in_range : forall g p, In g gs -> In p (g_pos g) -> (1 <= p <= reflen)%nat.
+  Hypothesis regions_mod3 : forall g, In g gs -> (length (g_pos g) mod 3 = 0)%nat.
+
+  Lemma all_aas_wf : forall l aas, all_aas ref que r2m l = Ok aas -> Forall wf_tr aas.
+  Proof.
+    induction l as [|g t IH]; intros aas H; cbn [all_aas] in H; [injection H as <-; constructor|].
+    destruct (get_aas_traced ref que r2m g) as [a| |] eqn:Ea; try discriminate. cbn [bind] in H.
+    destruct (all_aas ref que r2m t) as [r| |] eqn:Er; try discriminate. cbn [bind] in H. injection H as <-.
+    apply Forall_app. split; [|apply IH; reflexivity].
+    unfold get_aas_traced in Ea. destruct (a_panic _); [discriminate|]. injection Ea as <-.
+    apply aa_out_wf; constructor.
+  Qed.
+
+  Lemma merged_wf aas : all_aas ref que r2m gs = Ok aas ->
+    Forall wf_tr (map (fun i => (mk_indel i, [])) (Indels.get_indels (cols_of_rows ref que)) ++
+                  map trace_nuc (get_nucs ref que r2m inter) ++ aas).
+  Proof.
+    intros Ha. apply Forall_app. split; [|apply Forall_app; split; [|apply (all_aas_wf gs aas Ha)]].
+    - apply Forall_forall. intros x Hx. apply in_map_iff in Hx as (i & <- & _). unfold wf_tr. destruct i; reflexivity.
+    - apply Forall_forall. intros x Hx. apply in_map_iff in Hx as (v & <- & Hv). apply get_nucs_iff in Hv as (p & _ & _ & ->).
+      unfold wf_tr, trace_nuc. reflexivity.
+  Qed.
+
+  (* none is dropped: every reference position whose symbols test disjoint is mentioned by the final list, provided no two
+     aa: records of the sorted list are equal (true whenever the features carry pairwise distinct names: records of one
+     feature differ in their residue number) *)
+  Theorem nuc_mentions_complete out aas : all_aas ref que r2m gs = Ok aas ->
+    variants_pair_traced ref que gs inter = Ok out ->
+    aa_uniq (ssort (variant * list nat) t_lt
+               (map (fun i => (mk_indel i, [])) (Indels.get_indels (cols_of_rows ref que)) ++ map trace_nuc (get_nucs ref que r2m inter) ++ aas)) ->
+    forall p, (1 <= p <= reflen)%nat -> dis ref que r2m p = true -> In p (flat_map snd out).
+  Proof.
+    intros Ha Hout Hu p Hr Hd. unfold variants_pair_traced in Hout. fold r2m in Hout. rewrite Ha in Hout. cbn [bind] in Hout. injection Hout as <-.
+    pose proof (proj2 (merged_mentions_exact ref que gs regions_in_range regions_mod3 aas Ha p) (conj Hr Hd)) as Hin.
+    apply in_flat_map in Hin as ([v m] & Hx & Hp). cbn [snd] in Hp.
+    set (L := map (fun i => (mk_indel i, [])) (Indels.get_indels (cols_of_rows ref que)) ++ map trace_nuc (get_nucs ref que r2m inter) ++ aas) in *.
+    assert (Hwf : Forall wf_tr (ssort (variant * list nat) t_lt L)).
+    { apply Forall_forall. intros x Hx'. apply (proj1 (ssort_In t_lt L x)) in Hx'. pose proof (merged_wf aas Ha) as W. rewrite Forall_forall in W. apply W. exact Hx'. }
+    destruct (dedupe_complete _ None Hwf Hu ltac:(intros pv E; discriminate) v m p (proj2 (ssort_In t_lt L (v, m)) Hx) Hp) as [H|(pv & E & _)];
+      [exact H|discriminate].
+  Qed.
+End Complete.
